@@ -372,6 +372,24 @@ def h_carrier(E, fname):
     return ref[0]
 
 
+TINY_VALUES = [('exp(-800)', 0.0), ('exp(-710)', math.exp(-710)), ('exp(-750+i)', 0.0), ('sin(1e-310)', 1e-310), ('tanh(1e-320)', 1e-320), ('sech(800)', None), ('exp(-745)', 5e-324),
+               ('arctan(1e-315)', 1e-315), ('sinh(1e-310)', 1e-310), ('1/cosh(900)', None)]
+
+
+def h_tiny_values(E, idx):
+    """function values too small for a normal double are the textbook value rounded (zero or a subnormal), not an error (overflow IS an error)"""
+    from mitxgraders.helpers.calc.expressions import evaluator, DEFAULT_FUNCTIONS, DEFAULT_SUFFIXES, DEFAULT_VARIABLES
+    from mitxgraders.helpers.calc.exceptions import CalcOverflowError
+    expr, want = TINY_VALUES[idx]
+    try:
+        got, _ = evaluator(expr, dict(DEFAULT_VARIABLES), DEFAULT_FUNCTIONS, DEFAULT_SUFFIXES)
+    except CalcOverflowError:
+        E.check('underflow-gives-the-rounded-textbook-value', want is None)
+        return 'overflow'
+    E.check('underflow-gives-the-rounded-textbook-value', want is not None and abs(complex(got) - want) <= 1e-12 * abs(want) + 1e-322)
+    return 'value'
+
+
 SHAPES = [(), (2,), (3,), (2, 2), (2, 3), (3, 3), (2, 2, 2), (3, 3, 3), (2, 2, 2, 2)]
 
 
@@ -437,6 +455,8 @@ def harnesses(tier):
     for name in sorted(ELEMENTWISE_FUNCTIONS):
         if name not in ('factorial', 'fact'):
             add(h_carrier, 'carrier', dict(f=name), 'argument 2, 1, -2, 0, 3 carried as int / numpy int / numpy float / literal / kronecker sum / direct call', validate=False)
+    for i in range(len(TINY_VALUES)):
+        add(h_tiny_values, 'tiny_values', dict(i=i), TINY_VALUES[i][0], validate=False)
     for i in range(len(REAL_ONLY)):
         add(h_complex_args, 'complex_args', dict(i=i), REAL_ONLY[i] + ' with 6 complex values', validate=False)
     add(h_constants, 'constants', {}, 'tables')
